@@ -1,5 +1,6 @@
 import DigModel.Props.C01
 import DigModel.Proofs.RootCauseProgram
+import DigModel.Proofs.AvailProgram
 /-
   C04 — Missing dependencies: required means error, optional means zero value.
 
@@ -13,8 +14,16 @@ import DigModel.Proofs.RootCauseProgram
   * `C04_optional_absorbs_only_missing`: the provider loop turns a provider's failure into the zero value
     only if the parameter is optional AND the error chain contains `errMissingDependencies`; every other
     error (in particular a constructor's own error) is wrapped and returned, never hidden.
-  The "Invoke succeeds when everything is available" direction needs termination + the master invariant
-  and is carried by the correspondence check.
+  * **"Invoke succeeds when everything is available"** (`Proofs/Avail*.lean`), for the Invoke that follows any program:
+    `C04_missing_failure_is_real` — a "missing type" failure names only required single keys, of the invoked function
+    or of a constructor/decorator in its closure, for which no constructor is visible from the scope they are looked
+    up from; `C04_runtime_cycle_is_real` — a "cycle" failure of the resolver means a node of the closure is needed,
+    through parameters of constructors *and decorators*, to build its own arguments;
+    `C04_invoke_succeeds_when_available` — hence, when no user function fails, every such key has a visible
+    constructor and no node of the closure is below itself, Invoke answers `ok` (unless the scope's own graph check
+    reports a cycle, which `C04_invoke_succeeds_when_available_eager` excludes without DeferAcyclicVerification).
+    The dependency relation `Below` includes decorators' parameters: the graph dig checks does not, and a decorator
+    can close a cycle that only the run-time mark finds (demo below, replayed on the real library).
 -/
 namespace Dig.C04
 
@@ -95,9 +104,110 @@ theorem C04_optional_never_hides_a_failure (ctx : Ctx) (fuel : Nat) (ps : List P
 theorem C04_no_user_failure_no_user_error (p : Program) (hok : AllOk p.ctx) : ∀ r ∈ (runProgram p).2,
     (∀ e, r.v = .err e → DigRoot e ∧ Clean r.ev) ∧ (∀ f x, r.v ≠ .panicUser f x) := program_allOk p hok
 
+
+/-! ### a failure is real; available ⇒ succeeds (whole programs) -/
+
+/-- a "missing type" failure is real: every key it names is a required single parameter of the invoked function (looked
+    up from the invoking scope) or of a constructor or decorator in the closure of the Invoke (looked up from that
+    node's scope), and no constructor for it is visible from there -/
+theorem C04_missing_failure_is_real (p : Program) (i s f : Nat) (info : Bool) (fn : Fn) (params : List Param) (w0 : St)
+    (hf : fnOf p.fns f = some fn) (hnf : fn.nonfunc = none)
+    (hpp : parseParams p.types { (runProgram p).1 with log := [] } s fn = (.ok params, w0)) (e : DErr) (ks : List Key)
+    (hv : (step p.ctx p.fns (runProgram p).1 i (.invoke s f info)).2.v = .err e) (hks : e.rootCause = .missingTypes ks) :
+    ks ≠ [] ∧ ∀ k ∈ ks, ∃ c, (runProgram p).1.allProviders c k = [] ∧
+      (InvokeReq s params c k ∨ ∃ x, InvokeClosure (runProgram p).1 s params x ∧ ReqNode (runProgram p).1 x c k) := by
+  rcases program_invoke_real p i s f info fn params w0 hf hnf hpp e hv with ⟨path, he, _⟩ | hr
+  · rw [he] at hks; simp [DErr.rootCause] at hks
+  · exact hr.mis ks hks
+
+/-- a "cycle" failure is real: either the acyclicity check of the scope's graph reported it, or a node in the closure
+    of the Invoke is needed — through parameters of constructors and decorators — to build its own arguments -/
+theorem C04_runtime_cycle_is_real (p : Program) (i s f : Nat) (info : Bool) (fn : Fn) (params : List Param) (w0 : St)
+    (hf : fnOf p.fns f = some fn) (hnf : fn.nonfunc = none)
+    (hpp : parseParams p.types { (runProgram p).1 with log := [] } s fn = (.ok params, w0)) (e : DErr) (path : List Nat) (sc : Nat)
+    (hv : (step p.ctx p.fns (runProgram p).1 i (.invoke s f info)).2.v = .err e) (hc : e.rootCause = .cycle path sc) :
+    (∃ q, checkAcyclic w0 s = .cycle q) ∨
+    ∃ x, InvokeClosure (runProgram p).1 s params x ∧ Below (runProgram p).1 x x := by
+  rcases program_invoke_real p i s f info fn params w0 hf hnf hpp e hv with ⟨_, _, hq⟩ | hr
+  · exact Or.inl hq
+  · exact Or.inr (hr.cyc path sc hc)
+
+/-- **Invoke succeeds when everything is available**: no user function is scripted to fail, every required single key
+    in the closure has a visible constructor, no node of the closure is below itself -/
+theorem C04_invoke_succeeds_when_available (p : Program) (hok : AllOk p.ctx) (i s f : Nat) (info : Bool) (fn : Fn)
+    (params : List Param) (w0 : St) (hf : fnOf p.fns f = some fn) (hnf : fn.nonfunc = none)
+    (hs : s < (runProgram p).1.scopes.length)
+    (hpp : parseParams p.types { (runProgram p).1 with log := [] } s fn = (.ok params, w0))
+    (havail : ∀ c k, (InvokeReq s params c k ∨ ∃ x, InvokeClosure (runProgram p).1 s params x ∧ ReqNode (runProgram p).1 x c k) →
+      (runProgram p).1.allProviders c k ≠ [])
+    (hnocyc : ∀ x, InvokeClosure (runProgram p).1 s params x → ¬ Below (runProgram p).1 x x) :
+    (step p.ctx p.fns (runProgram p).1 i (.invoke s f info)).2.v = .ok ∨
+    ∃ path, (step p.ctx p.fns (runProgram p).1 i (.invoke s f info)).2.v = .err (.invalid (.cycle path s)) ∧
+      ∃ q, checkAcyclic w0 s = .cycle q :=
+  program_invoke_available p hok i s f info fn params w0 hf hnf hs hpp havail hnocyc
+
+theorem C04_invoke_succeeds_when_available_eager (p : Program) (hok : AllOk p.ctx) (hd : p.cfg.deferAcyclic = false)
+    (i s f : Nat) (info : Bool) (fn : Fn)
+    (params : List Param) (w0 : St) (hf : fnOf p.fns f = some fn) (hnf : fn.nonfunc = none)
+    (hs : s < (runProgram p).1.scopes.length)
+    (hpp : parseParams p.types { (runProgram p).1 with log := [] } s fn = (.ok params, w0))
+    (havail : ∀ c k, (InvokeReq s params c k ∨ ∃ x, InvokeClosure (runProgram p).1 s params x ∧ ReqNode (runProgram p).1 x c k) →
+      (runProgram p).1.allProviders c k ≠ [])
+    (hnocyc : ∀ x, InvokeClosure (runProgram p).1 s params x → ¬ Below (runProgram p).1 x x) :
+    (step p.ctx p.fns (runProgram p).1 i (.invoke s f info)).2.v = .ok :=
+  program_invoke_available_eager p hok hd i s f info fn params w0 hf hnf hs hpp havail hnocyc
+
+/-- non-vacuity (a test): with one parameterless provider of `k`, a consumer of `k` meets both hypotheses -/
+example : let st : St := { scopes := [{ parent := none, providers := [(⟨5, "", ""⟩, [0])] }], ctors := [default] }
+    (∀ c k, (InvokeReq 0 [.single ⟨5, "", ""⟩ false] c k ∨
+        ∃ x, InvokeClosure st 0 [.single ⟨5, "", ""⟩ false] x ∧ ReqNode st x c k) → st.allProviders c k ≠ []) ∧
+    (∀ x, InvokeClosure st 0 [.single ⟨5, "", ""⟩ false] x → ¬ Below st x x) := by
+  intro st
+  have hnp : ∀ x, nodeParams st x = [] := by
+    intro x
+    cases x with
+    | ctor n =>
+      rcases n with _ | n
+      · rfl
+      · simp [nodeParams, st, St.ctor]; rfl
+    | deco d => simp [nodeParams, st, St.deco]; rfl
+    | invoked => rfl
+  constructor
+  · intro c k h
+    rcases h with ⟨rfl, hk⟩ | ⟨x, _, hq, _⟩
+    · simp [reqSinglesL, reqSingles] at hk
+      subst hk
+      decide
+    · rw [hnp x] at hq; simp [reqSinglesL] at hq
+  · intro x _ ⟨l, hl, _⟩
+    rw [hnp x] at hl; simp [leavesL] at hl
+
+/-- demo (a *test*, run by the evaluator at build time; the same program was replayed on the real library): the graph
+    dig checks is acyclic (A needs B's key), but the decorator of B's key needs A's key — building A's arguments runs the
+    decorator, which needs A: the Invoke fails with a cycle found at run time.  Without the decorator it succeeds. -/
+def demoTypes : List TypeInfo :=
+  [{ id := 0, kind := .iface, elem := none, impl := [], isErr := true },
+   { id := 10, kind := .ptr, elem := none, impl := [], isErr := false },
+   { id := 11, kind := .ptr, elem := none, impl := [], isErr := false }]
+def demoFns : List Fn :=
+  [{ id := 1, name := "a", nonfunc := none, ins := [.univ 11], variadic := false, outs := [.univ 10] },
+   { id := 2, name := "b", nonfunc := none, ins := [], variadic := false, outs := [.univ 11] },
+   { id := 3, name := "d", nonfunc := none, ins := [.univ 11, .univ 10], variadic := false, outs := [.univ 11] },
+   { id := 4, name := "i", nonfunc := none, ins := [.univ 10], variadic := false, outs := [] }]
+def demoCycle : Program :=
+  { cfg := {}, types := demoTypes, fns := demoFns, script := [],
+    ops := [.provide 0 1 {}, .provide 0 2 {}, .decorate 0 3 false false, .invoke 0 4 false], sameIds := true }
+def demoFine : Program := { demoCycle with ops := [.provide 0 1 {}, .provide 0 2 {}, .invoke 0 4 false] }
+#guard ((runProgram demoCycle).2.map fun r => match r.v with | .ok => 0 | .err e => (if e.isCycleDetected then 2 else 1) | _ => 3) == [0, 0, 0, 2]
+#guard ((runProgram demoFine).2.map fun r => match r.v with | .ok => 0 | _ => 1) == [0, 0, 0]
+
 #print axioms C04_resolver_fails_only_for_missing_or_cycle
 #print axioms C04_optional_never_hides_a_failure
 #print axioms C04_no_user_failure_no_user_error
+#print axioms C04_missing_failure_is_real
+#print axioms C04_runtime_cycle_is_real
+#print axioms C04_invoke_succeeds_when_available
+#print axioms C04_invoke_succeeds_when_available_eager
 #print axioms C04_required_missing
 #print axioms C04_optional_missing
 #print axioms C04_shallow
